@@ -11,9 +11,9 @@ import (
 // text, ignoring source locations and comments, for structural comparison
 // by the harness (it does not use martian's own equivalence code).
 type astDumper struct {
-	sb      strings.Builder
-	seen    map[uintptr]bool
-	depth   int
+	sb    strings.Builder
+	seen  map[uintptr]bool
+	depth int
 	// sortCalls: compare pipeline calls as a set (the formatter may
 	// reorder calls into dependency order).
 	sortCalls bool
